@@ -15,6 +15,8 @@ package main
 //   const_cast_shared    T(c) with the top bit of the T-wide c set (e.g. uint2(3)):
 //                        the shared constant `$c` gets T's width and a later
 //                        plain `c` is sign-extended from it
+//   const_signed_widening  T(c), T signed and wider than c's own 32/64-bit constant
+//                        whose top bit is set (int40(0xffffffff)): sign-extended
 //   const_left_unsigned  `c < x` (also <= > >=) with a literal on the left and x
 //                        uintN, N >= 32: signed comparator
 //   named_result_zero    a named result read before it is assigned (MPCL does
@@ -200,6 +202,9 @@ func (g *gen) litValue(t *Ty, nonzero bool) *big.Int {
 		}
 		return big.NewInt(1)
 	}
+	if g.opts.defect == "const_signed_widening" && t.Signed() && t.W > 32 && g.pct(50) {
+		return big.NewInt([]int64{0x80000000, 0xffffffff, 0xfffffffe, 0x80000001, 0xc0000000}[g.r.Intn(5)])
+	}
 	switch g.pick(20, 15, 10, 10, 15, 30) {
 	case 0:
 		v = big.NewInt(int64(g.r.Intn(4)))
@@ -271,44 +276,46 @@ func (g *gen) typeConst(e *Expr, op string) {
 		g.tag("typed_literal")
 		return
 	}
-	if (g.pct(8) || (g.opts.defect == "const_cast_shared" && g.pct(60))) && e.T.W <= 64 {
+	if (g.pct(8) || ((g.opts.defect == "const_cast_shared" || g.opts.defect == "const_signed_widening") && g.pct(60))) && e.T.W <= 64 {
 		// F5: a typed constant whose top bit is set narrows the shared constant
 		// `$n` (ssa.Program.Constants is keyed by name); a later plain use of the
 		// same number is then sign-extended from the narrow wires.  Only the
 		// probe class emits such casts.
-		top := false
+		kind := ""
 		if e.K == "lit" {
-			top = constCastRisky(e.T, e.N)
-		} else {
-			top = !e.T.Signed()
+			kind = constCastRisky(e.T, e.N)
+		} else if !e.T.Signed() {
+			kind = "const_cast_shared"
 		}
-		if top {
-			if g.opts.defect != "const_cast_shared" {
+		if kind != "" {
+			if g.opts.defect != kind {
 				return
 			}
-			g.hit["const_cast_shared"] = true
+			g.hit[kind] = true
 		}
 		e.Typed = true
 		g.tag("typed_literal")
 	}
 }
 
-// constCastRisky: would the constant conversion T(n) meet defect F5?  The
+// constCastRisky: would the constant conversion T(n) meet a known defect?  The
 // constant `$n` has its own default width cb (32, 64 or its bit length).
-//   - T narrower than cb and the T-wide pattern of n has its top bit set: `$n`
-//     may get T's width and a later plain n is sign-extended from it;
-//   - T signed and wider than cb and bit cb-1 of n set (0xffffffff as int33):
-//     the cb-wide constant wires are sign-extended to T.
-func constCastRisky(t *Ty, n *big.Int) bool {
+//   - "const_cast_shared": T narrower than cb and the T-wide pattern of n has
+//     its top bit set: `$n` may get T's width and a later plain n is
+//     sign-extended from it;
+//   - "const_signed_widening": T signed and wider than cb and bit cb-1 of n set
+//     (0xffffffff as int33): the cb-wide constant is sign-extended to T (the
+//     compiler cannot tell 0xffffffff from int32(-1)).
+func constCastRisky(t *Ty, n *big.Int) string {
 	bl := n.BitLen()
 	cb := constBits(n)
 	switch {
-	case t.W < cb:
-		return bl == t.W
-	case t.W > cb:
-		return t.Signed() && bl == cb
+	case t.W < cb && bl == t.W:
+		return "const_cast_shared"
+	case t.W > cb && t.Signed() && bl == cb:
+		return "const_signed_widening"
 	}
-	return false
+	return ""
 }
 
 func lit32(k int) *Expr { return &Expr{K: "lit", T: tInt(32), N: big.NewInt(int64(k))} }
@@ -1573,6 +1580,9 @@ func genProgram(r *hxlib.Rng, opts genOpts) *Program {
 	}
 	if opts.defect == "const_left_unsigned" {
 		g.palette = []*Ty{tUint([]int{32, 33, 40, 64}[r.Intn(4)])}
+	}
+	if opts.defect == "const_signed_widening" {
+		g.palette = []*Ty{tInt([]int{33, 40, 48, 64}[r.Intn(4)])}
 	}
 	// struct types
 	if g.pct(35) {
